@@ -30,11 +30,12 @@ const (
 	TLm2 // (*hw.S).m2, a second unexported method of S
 	TLoop // hw.Loop: mockable, but an apply with an origin placeholder must be refused
 	TXB   // X.B: a second method of the interface variable, of the same signature as X.A
+	TGen  // hw.GenF[int]: a generic instantiation, mocked through its function value (stubs only)
 	NTargets
 )
 
 // TargetNames for printing.
-var TargetNames = []string{"F0", "F1", "(*S).M", "(*S).m", "G", "hw.g2", "own.g2", "X.A", "V.ValM", "(*V).PtrM", "(*S).m2", "Loop", "X.B"}
+var TargetNames = []string{"F0", "F1", "(*S).M", "(*S).m", "G", "hw.g2", "own.g2", "X.A", "V.ValM", "(*V).PtrM", "(*S).m2", "Loop", "X.B", "GenF[int]"}
 
 //go:noinline
 func g2(a int) int {
@@ -50,7 +51,7 @@ func g2(a int) int {
 func CallOwnG2(a int) int { return g2(a) }
 
 // Original results: a + Orig[t]; X.A unmocked panics (nil interface).
-var Orig = []int{100, 200, 300, 400, 500, 600, 650, 0, 150, 250, 450, 0, 0}
+var Orig = []int{100, 200, 300, 400, 500, 600, 650, 0, 150, 250, 450, 0, 0, 700}
 
 // OrigOf is the original result of target t for argument a.
 func OrigOf(t Target, a int) int {
@@ -92,6 +93,8 @@ func Call(t Target, a int) int {
 		return hw.Loop(a)
 	case TXB:
 		return hw.CallXB(a)
+	case TGen:
+		return hw.CallGen(a)
 	}
 	panic("bad target")
 }
@@ -127,6 +130,31 @@ func EntryPC(t Target) uintptr {
 }
 
 var pcCache = map[string]uintptr{}
+
+// GenEntries are the entries of every function the runtime lists as hw.GenF[...] (the instantiation wrapper
+// and the shape body: goom diverts the body, and may divert the wrapper).
+func GenEntries() []uintptr {
+	if genEntries == nil {
+		lo, hi := vk.TextRange()
+		for pc := lo; pc < hi; {
+			e, end := vk.FuncExtentFast(pc)
+			if e == 0 {
+				pc += 16
+				continue
+			}
+			if vk.FuncName(e) == hw.Pkg+".GenF[...]" {
+				genEntries = append(genEntries, e)
+			}
+			pc = end
+		}
+		if len(genEntries) == 0 {
+			vk.Fatalf("no function named %s.GenF[...] in the runtime table", hw.Pkg)
+		}
+	}
+	return genEntries
+}
+
+var genEntries []uintptr
 
 // pcByName finds a function entry by scanning the runtime's own function table (independent
 // of goom's symbol lookup).
@@ -276,6 +304,8 @@ func (w *World) lookup(b int, t Target) *handle {
 		h.iface = bd.Interface(&hw.X).Method("A")
 	case TXB:
 		h.iface = bd.Interface(&hw.X).Method("B")
+	case TGen:
+		h.exported = bd.Func(hw.GenInt)
 	case TVv:
 		h.exported = bd.Struct(hw.V{}).Method("ValM")
 	case TVp:
